@@ -1819,7 +1819,12 @@ func (s *qSim) checkVerdict(pod *corev1.Pod, status *fwktype.Status, vi *verdict
 		}
 		return fromRL(mgr.GetQuotaInfoByName(q).GetMax())
 	}
-	reason := ""
+	// reason: over a limit under the lenient reading (an ancestor is only looked at in the dimensions the pod actually
+	// requests); strictReason: over a limit under the strict reading of the statement (usage + request within the limit in
+	// every declared dimension of the quota and of every ancestor, even where the pod requests nothing and the group is
+	// already above its limit). An admission is wrong only if even the lenient reading is over a limit; a rejection is
+	// wrong only if even the strict reading fits. In between either verdict is accepted.
+	reason, strictReason := "", ""
 	chain := vi.chain
 	if !s.cfg.CheckParent {
 		chain = chain[:1]
@@ -1827,11 +1832,11 @@ func (s *qSim) checkVerdict(pod *corev1.Pod, status *fwktype.Status, vi *verdict
 	for i, q := range chain {
 		lim := limitOf(q)
 		for _, d := range qDims {
-			if i > 0 && req[d] == 0 {
-				continue // ancestors are checked only in the dimensions the pod requests
-			}
 			if vi.used[q][d]+req[d] > lim[d] {
-				reason = fmt.Sprintf("%s: used %d + req %d > limit %d in %s", q, vi.used[q][d], req[d], lim[d], d)
+				strictReason = fmt.Sprintf("%s: used %d + req %d > limit %d in %s", q, vi.used[q][d], req[d], lim[d], d)
+				if i == 0 || req[d] != 0 {
+					reason = strictReason
+				}
 			}
 		}
 	}
@@ -1840,6 +1845,7 @@ func (s *qSim) checkVerdict(pod *corev1.Pod, status *fwktype.Status, vi *verdict
 		for _, d := range qDims {
 			if vi.npUsed[d]+req[d] > min[d] {
 				reason = fmt.Sprintf("%s: non-preemptible used %d + req %d > min %d in %s", vi.quota, vi.npUsed[d], req[d], min[d], d)
+				strictReason = reason
 			}
 		}
 	}
@@ -1847,7 +1853,10 @@ func (s *qSim) checkVerdict(pod *corev1.Pod, status *fwktype.Status, vi *verdict
 	if status.IsSuccess() && reason != "" {
 		r.Fail("admission", "admitted-over-limit", "pod %s admitted to quota %s but %s (runtime=%v checkParent=%v)", pod.Name, vi.quota, reason, s.cfg.Runtime, s.cfg.CheckParent)
 	}
-	if !status.IsSuccess() && reason == "" {
+	if !status.IsSuccess() && reason == "" && strictReason != "" {
+		r.Probe("rejected-only-under-strict-reading")
+	}
+	if !status.IsSuccess() && strictReason == "" {
 		if status.Code() != fwktype.Unschedulable {
 			r.Fail("admission", "error-status", "PreFilter for pod %s returned %v: %s", pod.Name, status.Code(), status.Message())
 		}
